@@ -59,4 +59,32 @@ func init() {
 		Outside: []string{"streams longer than the bound, e.g. real certificates (the codec copies data verbatim; only sizes matter)"},
 		Assumptions: commonAssumptions,
 	}
+	registry["C10"] = &Property{
+		Quick: []HarnessSpec{
+			{Name: "VC10_DescriptorDecodeExact", Params: map[string]int{"vsymC10Max": 100}, ConcAlloc: true, MaxDecisions: 4000, NeedReach: []string{"end"}},
+			{Name: "VC10_WinCertDecodeExact", Params: map[string]int{"vsymC10Max": 100}, ConcAlloc: true, MaxDecisions: 4000, NeedReach: []string{"end"}},
+			{Name: "VC10_EncodeDecode", Params: map[string]int{"vsymC10Max": 60}, ConcAlloc: true, MaxDecisions: 4000, NeedReach: []string{"end"}},
+		},
+		Thorough: []HarnessSpec{
+			{Name: "VC10_DescriptorDecodeExact", Params: map[string]int{"vsymC10Max": 400}, ConcAlloc: true, MaxDecisions: 8000, MaxPaths: 2000000, TimeoutSec: 2400, NeedReach: []string{"end"}},
+			{Name: "VC10_WinCertDecodeExact", Params: map[string]int{"vsymC10Max": 400}, ConcAlloc: true, MaxDecisions: 8000, MaxPaths: 2000000, TimeoutSec: 1200, NeedReach: []string{"end"}},
+			{Name: "VC10_EncodeDecode", Params: map[string]int{"vsymC10Max": 300}, ConcAlloc: true, MaxDecisions: 8000, MaxPaths: 2000000, TimeoutSec: 1200, NeedReach: []string{"end"}},
+		},
+		Bounds: []string{"descriptor || payload with every byte symbolic, total length <= 100 (quick) / 400 (thorough); dwLength any value that fits; any timestamp, type GUID, data, payload", "encode->decode: certificate data 0..60 (quick) / 0..300 bytes, payload 0..24 bytes"},
+		Outside: []string{"certificate data longer than the bound (the codec copies it verbatim)", "malformed descriptors (C14)"},
+		Assumptions: commonAssumptions,
+	}
+	registry["C17"] = &Property{
+		Quick:    []HarnessSpec{{Name: "VC17_GUID", NeedReach: []string{"end"}}, {Name: "VC17_GUIDCompare", NeedReach: []string{"end"}}},
+		Bounds:   []string{"GUID: none — all 2^128 values are one symbolic run (four symbolic fields)"},
+		Outside:  []string{},
+		Assumptions: commonAssumptions,
+	}
+	registry["C18"] = &Property{
+		Quick:    []HarnessSpec{{Name: "VC18_BootOrderNames", Params: map[string]int{"vsymC18Entries": 3}, NeedReach: []string{"end"}}},
+		Thorough: []HarnessSpec{{Name: "VC18_BootOrderNames", Params: map[string]int{"vsymC18Entries": 8}, NeedReach: []string{"end"}}},
+		Bounds:   []string{"boot order of 0..3 (quick) / 0..8 entries, all 65 536 values of every entry symbolic"},
+		Outside:  []string{"longer boot orders (entries are decoded independently)"},
+		Assumptions: commonAssumptions,
+	}
 }
